@@ -12,7 +12,8 @@ read off the TRANSLATION of calc_omen_keyspace (where `x > 0` / `0 < x` and the
 names of locals are already normalised away); the defaults come from the def
 line.  The functions that are not translated (the guesser's loader, the way the
 scorer opens its files, the probability written to pcfg_omen_prob.txt) keep
-their checks; the last one is checked up to the naming of intermediate values."""
+their checks; the last one is now tied by the translation of save_omen_rules_to_disk
+(harness/translate_omen_trainer.py), _check_prob_formula below is kept for reference only."""
 import ast
 import copy
 import os
@@ -232,8 +233,7 @@ def extract():
         raise ExtractError("check_valid admits TAB")
     C["trainer_rejected_chars"] = rej
 
-    # probability written to pcfg_omen_prob.txt: for every (level, keyspace) of omen_keyspace, skipping
-    # keyspace 0,  pcfg_omen_prob[level] = (omen_levels_count[level] / num_valid_passwords) / keyspace
-    # (checked up to the naming of intermediate values and the way the zero test is written)
-    _check_prob_formula(_func(src("lib_trainer/omen/omen_file_output.py"), "save_omen_rules_to_disk"))
+    # the probability written to pcfg_omen_prob.txt is no longer shape-checked here: save_omen_rules_to_disk is
+    # translated (harness/translate_omen_trainer.py -> gen/OmenTrainerOut_gen.v) and proved equal to the model
+    # whose probability loop is OmenKeyspace.omen_prob (Props/C18.v: C18_source_prob_loop_is_model)
     return C
